@@ -377,8 +377,40 @@ def check(run: Run) -> None:
                                     "is rewired (children between the re-appended entry and the tail vanish from delta_value / modified items)", loc=fa.loc(c))
         run.sites(n_calls, 8, "notify_child_modified call sites")
 
+    with run.obligation("C04.o", "K7", "whole-value COPY and MOVE assignment of every storage kind (atomic, fixed TSB/TSL, dynamic TSL, window, forwarding target link) perform the same "
+                        "bookkeeping: the multiset of bookkeeping calls they make (records, notifications, window / capacity maintenance, structural edits - accessors are not counted) is equal once the transfer-specific calls are set aside (the copy/move primitive itself, the binding / "
+                        "payload accessors and the argument checks of the move path) - a step one sibling forgets (a record, a parent notification, a window roll) is a "
+                        "modification the other sibling reports and this one does not"):
+        from collections import Counter
+        STEP = re.compile(r"record|notify|touch|mark|prepare|ensure|reset|clear|roll|stamp|publish|erase|insert|remove|invalidate|push|pop|resize|append|reserve|destroy|construct|assign")  # bookkeeping, not accessors
+        XFER = {"X", "binding", "data", "valid", "writable_payload", "ctx", "has_value", "invalid_argument", "logic_error", "schema", "value_kind", "name"}
+        PAIRS = [("src/hgraph/types/metadata/ts_data_atomic_ops.cpp", "atomic_copy_value_from", "atomic_move_value_from"),
+                 ("src/hgraph/types/metadata/ts_data_fixed_structured_ops.cpp", "fixed_copy_value_from", "fixed_move_value_from"),
+                 ("src/hgraph/types/metadata/ts_data_dynamic_list_ops.cpp", "dynamic_copy_value_from", "dynamic_move_value_from"),
+                 ("src/hgraph/types/metadata/ts_data_window_ops.cpp", "window_copy_value_from", "window_move_value_from"),
+                 ("src/hgraph/types/time_series/ts_input/target_link_ops.cpp", "target_link_copy_value_from", "target_link_move_value_from")]
+
+        def steps(fa_):
+            out = Counter()
+            for c in R.calls(fa_):
+                nm = re.sub(r"copy|move", "X", (R.callee_name(c) or "").split("::")[-1])
+                if nm and nm not in XFER and STEP.search(nm):
+                    out[nm] += 1
+            return out
+        for rel, a, b in PAIRS:
+            fa_a, fa_b = R.fn(run, rel, a), R.fn(run, rel, b)
+            sa, sb = steps(fa_a), steps(fa_b)
+            run.count(1, "C04.o")
+            if sa != sb:
+                only_a = sorted((sa - sb).elements())
+                only_b = sorted((sb - sa).elements())
+                run.finding("C04.o", f"{a}/{b}:bookkeeping-differs", f"{a} and {b} do not perform the same bookkeeping: only the copy path calls {only_a}, only the move path calls "
+                            f"{only_b}", loc=fa_b.loc(fa_b.body))
+        run.sites(len(PAIRS), 5, "copy / move sibling pairs")
+
 
 VARIANTS = [
+    {"id": "o-fixed-move-forgets-record", "expect": "C04.o", "edits": [{"file": "src/hgraph/types/metadata/ts_data_fixed_structured_ops.cpp", "find": "if (!tracking->record_modified(modified_time))", "replace": "if (tracking->last_modified_time == MIN_DT)", "nth": 1}]},
     {"id": "n-proxy-notifies-unconditionally", "expect": "C04.n", "edits": [{"file": "src/hgraph/types/time_series/ts_data/proxy.cpp", "find": "        if (tracking_.record_modified(modified_time)) { tracking_.parent.notify_child_modified(modified_time); }", "replace": "        static_cast<void>(tracking_.record_modified(modified_time));\n        tracking_.parent.notify_child_modified(modified_time);"}]},
     {"id": "l-seed-C04-5-revived-slot-not-republished", "expect": "C04.l", "edits": [{"file": "src/hgraph/types/metadata/ts_data_slot_ops.cpp", "find": "                if (slot_removed(result.slot))\n                {\n                    removed_.reset(result.slot);\n                    value_published_.set(result.slot);\n                }\n                else if (child_valid(result.slot))\n                {\n                    value_published_.set(result.slot);\n                    added_.set(result.slot);\n                }\n                (void)key_set_tracking_.record_modified(modified_time);\n                return mutation_result(result.slot, result.constructed);\n            }\n\n            [[nodiscard]] SlotTSDataMutationResult insert_key_move", "replace": "                if (slot_removed(result.slot)) { removed_.reset(result.slot); }\n                else if (child_valid(result.slot))\n                {\n                    value_published_.set(result.slot);\n                    added_.set(result.slot);\n                }\n                (void)key_set_tracking_.record_modified(modified_time);\n                return mutation_result(result.slot, result.constructed);\n            }\n\n            [[nodiscard]] SlotTSDataMutationResult insert_key_move"}]},
     {"id": "l-insert-forgets-keyset-stamp", "expect": "C04.l", "edits": [{"file": "src/hgraph/types/metadata/ts_data_slot_ops.cpp", "find": "                (void)key_set_tracking_.record_modified(modified_time);\n                return mutation_result(result.slot, result.constructed);\n            }\n\n            [[nodiscard]] SlotTSDataMutationResult remove_key", "replace": "                return mutation_result(result.slot, result.constructed);\n            }\n\n            [[nodiscard]] SlotTSDataMutationResult remove_key"}]},
